@@ -272,11 +272,18 @@ def gen_random(g):
         b = g.const_operand(shape=g.compatible_shape(base), kind=kind)
     elif roll < 0.3:
         b = dict(a)  # equal polynomials
-    elif roll < 0.5:
+    elif roll < 0.4:
         # differs from a in a single same-degree term
         b = {**a, "coefs": [c for c in a["coefs"]]}
         k = rng.randrange(len(b["coefs"]))
         b["coefs"][k] = G.nested_map(G.jnum, g.array_data(base, kind, zero_prob=0.2))
+    elif roll < 0.5 and kind == "float":
+        # ... by a hair: the order is exact, never "equal up to a tolerance"
+        b = {**a, "coefs": [c for c in a["coefs"]]}
+        k = rng.randrange(len(b["coefs"]))
+        eps = rng.choice([2.0 ** -40, -2.0 ** -40, 1e-9, 1e-12, -1e-10])
+        b["coefs"][k] = G.nested_map(lambda v: v + eps if not isinstance(v, dict) else v,
+                                     a["coefs"][k])
     elif roll < 0.75:
         b = make(g.compatible_shape(base))
     else:
